@@ -125,13 +125,17 @@ func ext۰reflect۰rtype۰Field(fr *frame, args []value) value {
 	st := args[0].(rtype).t.Underlying().(*types.Struct)
 	i := args[1].(int)
 	f := st.Field(i)
+	pkgPath := "" // empty for exported fields, as in package reflect
+	if !f.Exported() && f.Pkg() != nil {
+		pkgPath = f.Pkg().Path()
+	}
 	return structure{
 		f.Name(),
-		f.Pkg().Path(),
+		pkgPath,
 		makeReflectType(rtype{f.Type()}),
 		st.Tag(i),
-		0,         // TODO(adonovan): offset
-		[]value{}, // TODO(adonovan): indices
+		0, // offset: not modelled
+		[]value{i},
 		f.Anonymous(),
 	}
 }
@@ -193,6 +197,255 @@ func ext۰reflect۰New(fr *frame, args []value) value {
 func ext۰reflect۰SliceOf(fr *frame, args []value) value {
 	// Signature: func (t reflect.rtype) Type
 	return makeReflectType(rtype{types.NewSlice(args[0].(iface).v.(rtype).t)})
+}
+
+func ext۰reflect۰PointerTo(fr *frame, args []value) value {
+	// Signature: func (t reflect.Type) reflect.Type
+	return makeReflectType(rtype{types.NewPointer(args[0].(iface).v.(rtype).t)})
+}
+
+func ext۰reflect۰MapOf(fr *frame, args []value) value {
+	// Signature: func (key, elem reflect.Type) reflect.Type
+	return makeReflectType(rtype{types.NewMap(args[0].(iface).v.(rtype).t, args[1].(iface).v.(rtype).t)})
+}
+
+func ext۰reflect۰ArrayOf(fr *frame, args []value) value {
+	// Signature: func (length int, elem reflect.Type) reflect.Type
+	return makeReflectType(rtype{types.NewArray(args[1].(iface).v.(rtype).t, asInt64(args[0]))})
+}
+
+func ext۰reflect۰rtype۰Key(fr *frame, args []value) value {
+	m, ok := args[0].(rtype).t.Underlying().(*types.Map)
+	if !ok {
+		panic(targetPanic{iface{t: errorType, v: "reflect: Key of non-map type " + args[0].(rtype).t.String()}})
+	}
+	return makeReflectType(rtype{m.Key()})
+}
+
+func ext۰reflect۰rtype۰Len(fr *frame, args []value) value {
+	a, ok := args[0].(rtype).t.Underlying().(*types.Array)
+	if !ok {
+		panic(targetPanic{iface{t: errorType, v: "reflect: Len of non-array type " + args[0].(rtype).t.String()}})
+	}
+	return int(a.Len())
+}
+
+func ext۰reflect۰rtype۰Name(fr *frame, args []value) value {
+	switch t := types.Unalias(args[0].(rtype).t).(type) {
+	case *types.Named:
+		return t.Obj().Name()
+	case *types.Basic:
+		return t.Name()
+	}
+	return ""
+}
+
+func ext۰reflect۰rtype۰PkgPath(fr *frame, args []value) value {
+	if t, ok := types.Unalias(args[0].(rtype).t).(*types.Named); ok && t.Obj().Pkg() != nil {
+		return t.Obj().Pkg().Path()
+	}
+	return ""
+}
+
+func ext۰reflect۰rtype۰Comparable(fr *frame, args []value) value {
+	return types.Comparable(args[0].(rtype).t)
+}
+
+func ext۰reflect۰rtype۰AssignableTo(fr *frame, args []value) value {
+	return types.AssignableTo(args[0].(rtype).t, args[1].(iface).v.(rtype).t)
+}
+
+func ext۰reflect۰rtype۰ConvertibleTo(fr *frame, args []value) value {
+	return types.ConvertibleTo(args[0].(rtype).t, args[1].(iface).v.(rtype).t)
+}
+
+func ext۰reflect۰rtype۰Implements(fr *frame, args []value) value {
+	it, ok := args[1].(iface).v.(rtype).t.Underlying().(*types.Interface)
+	if !ok {
+		panic(targetPanic{iface{t: errorType, v: "reflect: non-interface type passed to Type.Implements"}})
+	}
+	return types.Implements(args[0].(rtype).t, it)
+}
+
+func ext۰reflect۰MakeSlice(fr *frame, args []value) value {
+	// Signature: func (typ reflect.Type, len, cap int) reflect.Value
+	t := args[0].(iface).v.(rtype).t
+	st, ok := t.Underlying().(*types.Slice)
+	if !ok {
+		panic(targetPanic{iface{t: errorType, v: "reflect.MakeSlice of non-slice type"}})
+	}
+	n := fr.i.concreteLen(args[1], st.Elem(), "reflect.MakeSlice len")
+	c := fr.i.concreteLen(args[2], st.Elem(), "reflect.MakeSlice cap")
+	if n < 0 || c < n {
+		panic(targetPanic{iface{t: errorType, v: "reflect.MakeSlice: len > cap or negative"}})
+	}
+	fr.i.chargeAlloc(uint64(c), st.Elem())
+	sl := make([]value, c)
+	for k := range sl {
+		sl[k] = zero(st.Elem())
+	}
+	return makeReflectValue(t, sl[:n])
+}
+
+func ext۰reflect۰MakeMap(fr *frame, args []value) value {
+	// Signature: func (typ reflect.Type[, n int]) reflect.Value
+	t := args[0].(iface).v.(rtype).t
+	mt, ok := t.Underlying().(*types.Map)
+	if !ok {
+		panic(targetPanic{iface{t: errorType, v: "reflect.MakeMap of non-map type"}})
+	}
+	return makeReflectValue(t, makeMap(mt.Key(), 0))
+}
+
+func ext۰reflect۰Append(fr *frame, args []value) value {
+	// Signature: func (s reflect.Value, x ...reflect.Value) reflect.Value
+	t := rV2T(args[0]).t
+	st, ok := t.Underlying().(*types.Slice)
+	if !ok {
+		panic(targetPanic{iface{t: errorType, v: "reflect.Append to non-slice"}})
+	}
+	dst, _ := rV2V(args[0]).([]value)
+	var src []value
+	_, elemIsIface := st.Elem().Underlying().(*types.Interface)
+	for _, x := range args[1].([]value) {
+		v := rV2V(x)
+		if elemIsIface {
+			if _, already := v.(iface); !already {
+				v = iface{t: rV2T(x).t, v: v}
+			}
+		}
+		src = append(src, copyVal(v))
+	}
+	n := len(dst) + len(src)
+	var r []value
+	if n <= cap(dst) {
+		r = dst[:n]
+		for k, v := range src {
+			fr.i.set(&r[len(dst)+k], v)
+		}
+	} else {
+		fr.i.chargeAlloc(uint64(len(src)), st.Elem())
+		ncap := fr.i.growCap(cap(dst), n, st.Elem())
+		r = make([]value, n, ncap)
+		copy(r, dst)
+		copy(r[len(dst):], src)
+		z := r[n:ncap]
+		for k := range z {
+			z[k] = zero(st.Elem())
+		}
+	}
+	return makeReflectValue(t, r)
+}
+
+func ext۰reflect۰Value۰SetMapIndex(fr *frame, args []value) value {
+	// Signature: func (v reflect.Value, key, elem reflect.Value)
+	m, ok := rV2V(args[0]).(*omap)
+	if !ok || m == nil {
+		panic(targetPanic{iface{t: errorType, v: "assignment to entry in nil map"}})
+	}
+	mt := rV2T(args[0]).t.Underlying().(*types.Map)
+	wrap := func(t types.Type, x value) value {
+		v := rV2V(x)
+		if _, isIface := t.Underlying().(*types.Interface); isIface {
+			if _, already := v.(iface); !already {
+				v = iface{t: rV2T(x).t, v: v}
+			}
+		}
+		return copyVal(v)
+	}
+	k := wrap(mt.Key(), args[1])
+	if rt, valid := args[2].(structure)[0].(rtype); !valid || rt.t == nil {
+		m.delete(fr.i, k)
+		return nil
+	}
+	m.insert(fr.i, k, wrap(mt.Elem(), args[2]))
+	return nil
+}
+
+func ext۰reflect۰Value۰Slice(fr *frame, args []value) value {
+	// Signature: func (v reflect.Value, i, j int) reflect.Value
+	lo, hi := int(asInt64(args[1])), int(asInt64(args[2]))
+	t := rV2T(args[0]).t
+	switch v := rV2V(args[0]).(type) {
+	case []value:
+		if lo < 0 || hi < lo || hi > cap(v) {
+			panic(targetPanic{iface{t: errorType, v: "reflect.Value.Slice: slice index out of bounds"}})
+		}
+		return makeReflectValue(t, v[lo:hi])
+	case array:
+		a := rVAddr(args[0])
+		if a == nil {
+			panic(targetPanic{iface{t: errorType, v: "reflect.Value.Slice: slice of unaddressable array"}})
+		}
+		arr := (*a).(array)
+		if lo < 0 || hi < lo || hi > len(arr) {
+			panic(targetPanic{iface{t: errorType, v: "reflect.Value.Slice: slice index out of bounds"}})
+		}
+		return makeReflectValue(types.NewSlice(t.Underlying().(*types.Array).Elem()), []value(arr)[lo:hi])
+	case string:
+		if lo < 0 || hi < lo || hi > len(v) {
+			panic(targetPanic{iface{t: errorType, v: "reflect.Value.Slice: string slice index out of bounds"}})
+		}
+		return makeReflectValue(t, v[lo:hi])
+	}
+	panic(targetPanic{iface{t: errorType, v: "reflect: call of reflect.Value.Slice on " + t.String() + " Value"}})
+}
+
+// MapRange / MapIter: the iterator state lives beside the *MapIter it returns.
+type mapIterState struct {
+	it       omapIter
+	kt, vt   types.Type
+	key, val value
+	valid    bool
+}
+
+func ext۰reflect۰Value۰MapRange(fr *frame, args []value) value {
+	m, ok := rV2V(args[0]).(*omap)
+	mt, isMap := rV2T(args[0]).t.Underlying().(*types.Map)
+	if !ok || !isMap {
+		panic(targetPanic{iface{t: errorType, v: "reflect: call of reflect.Value.MapRange on non-map Value"}})
+	}
+	var cell value = structure{}
+	p := &cell
+	if fr.i.mapIters == nil {
+		fr.i.mapIters = map[*value]*mapIterState{}
+	}
+	fr.i.mapIters[p] = &mapIterState{it: omapIter{m: m}, kt: mt.Key(), vt: mt.Elem()}
+	return p
+}
+
+func (i *interpreter) mapIter(v value) *mapIterState {
+	st := i.mapIters[v.(*value)]
+	if st == nil {
+		panic(targetPanic{iface{t: errorType, v: "reflect: MapIter not obtained from MapRange"}})
+	}
+	return st
+}
+
+func ext۰reflect۰MapIter۰Next(fr *frame, args []value) value {
+	st := fr.i.mapIter(args[0])
+	old := *st
+	fr.i.logUndo(func() { *st = old })
+	r := st.it.next()
+	st.valid = r[0].(bool)
+	st.key, st.val = r[1], r[2]
+	return st.valid
+}
+
+func ext۰reflect۰MapIter۰Key(fr *frame, args []value) value {
+	st := fr.i.mapIter(args[0])
+	if !st.valid {
+		panic(targetPanic{iface{t: errorType, v: "MapIter.Key called before Next"}})
+	}
+	return makeReflectValue(st.kt, st.key)
+}
+
+func ext۰reflect۰MapIter۰Value(fr *frame, args []value) value {
+	st := fr.i.mapIter(args[0])
+	if !st.valid {
+		panic(targetPanic{iface{t: errorType, v: "MapIter.Value called before Next"}})
+	}
+	return makeReflectValue(st.vt, st.val)
 }
 
 func ext۰reflect۰TypeOf(fr *frame, args []value) value {
@@ -282,7 +535,30 @@ func ext۰reflect۰Value۰Kind(fr *frame, args []value) value {
 
 func ext۰reflect۰Value۰String(fr *frame, args []value) value {
 	// Signature: func (reflect.Value) string
-	return toString(rV2V(args[0]))
+	switch v := rV2V(args[0]).(type) {
+	case string:
+		return v
+	case sstr:
+		return v
+	}
+	if rt, ok := args[0].(structure)[0].(rtype); !ok || rt.t == nil {
+		return "<invalid Value>"
+	}
+	return "<" + rV2T(args[0]).t.String() + " Value>"
+}
+
+func ext۰reflect۰Value۰Bytes(fr *frame, args []value) value {
+	// Signature: func (reflect.Value) []byte
+	switch v := rV2V(args[0]).(type) {
+	case []value:
+		return v
+	case array:
+		if a := rVAddr(args[0]); a != nil {
+			return []value((*a).(array))
+		}
+		panic(targetPanic{iface{t: errorType, v: "reflect.Value.Bytes of unaddressable byte array"}})
+	}
+	panic(targetPanic{iface{t: errorType, v: "reflect: call of reflect.Value.Bytes on " + rV2T(args[0]).t.String() + " Value"}})
 }
 
 func ext۰reflect۰Value۰Type(fr *frame, args []value) value {
@@ -505,7 +781,14 @@ func ext۰reflect۰Value۰Field(fr *frame, args []value) value {
 	// Signature: func (v reflect.Value, i int) reflect.Value
 	v := args[0]
 	i := args[1].(int)
-	ft := rV2T(v).t.Underlying().(*types.Struct).Field(i).Type()
+	st, ok := rV2T(v).t.Underlying().(*types.Struct)
+	if !ok {
+		panic(targetPanic{iface{t: errorType, v: "reflect: call of reflect.Value.Field on " + rV2T(v).t.String() + " Value"}})
+	}
+	if i < 0 || i >= st.NumFields() {
+		panic(targetPanic{iface{t: errorType, v: "reflect: Field index out of range"}})
+	}
+	ft := st.Field(i).Type()
 	if a := rVAddr(v); a != nil {
 		return makeReflectValueAddr(ft, &(*a).(structure)[i])
 	}
@@ -576,10 +859,91 @@ func ext۰reflect۰Value۰IsNil(fr *frame, args []value) value {
 	}
 }
 
+// isZeroValue mirrors reflect.Value.IsZero: a Go bool, or a Bool term when the
+// answer depends on symbolic contents.
+func isZeroValue(fr *frame, t types.Type, v value) value {
+	var cx *sym.Ctx
+	if fr.i.ps != nil {
+		cx = fr.i.ps.cx
+	}
+	and := func(a, b value) value {
+		if ab, ok := a.(bool); ok {
+			if !ab {
+				return false
+			}
+			return b
+		}
+		if bb, ok := b.(bool); ok {
+			if !bb {
+				return false
+			}
+			return a
+		}
+		return cx.And(a.(*sym.Term), b.(*sym.Term))
+	}
+	switch u := t.Underlying().(type) {
+	case *types.Basic:
+		if u.Info()&types.IsString != 0 {
+			switch s := v.(type) {
+			case string:
+				return len(s) == 0
+			case sstr:
+				return len(s) == 0
+			}
+		}
+		if tm, ok := v.(*sym.Term); ok {
+			switch {
+			case tm.W == 0 || u.Info()&types.IsBoolean != 0:
+				return cx.Not(tm)
+			case u.Info()&types.IsFloat != 0:
+				return cx.FCmp(sym.OpFEq, tm, cx.Const(tm.W, 0))
+			}
+			return cx.Eq(tm, cx.Const(tm.W, 0))
+		}
+		switch x := v.(type) {
+		case bool:
+			return !x
+		case float32:
+			return x == 0
+		case float64:
+			return x == 0
+		case complex64:
+			return x == 0
+		case complex128:
+			return x == 0
+		}
+		if u.Info()&types.IsUnsigned != 0 {
+			return asUint64(v) == 0
+		}
+		return asInt64(v) == 0
+	case *types.Struct:
+		var r value = true
+		for k := 0; k < u.NumFields(); k++ {
+			if u.Field(k).Name() == "_" {
+				continue
+			}
+			r = and(r, isZeroValue(fr, u.Field(k).Type(), v.(structure)[k]))
+		}
+		return r
+	case *types.Array:
+		var r value = true
+		for _, e := range v.(array) {
+			r = and(r, isZeroValue(fr, u.Elem(), e))
+		}
+		return r
+	}
+	return ext۰reflect۰Value۰IsNil(fr, []value{makeReflectValue(t, v)})
+}
+
+func ext۰reflect۰Value۰IsZero(fr *frame, args []value) value {
+	// Signature: func (reflect.Value) bool
+	return isZeroValue(fr, rV2T(args[0]).t, rV2V(args[0]))
+}
+
 func ext۰reflect۰Value۰IsValid(fr *frame, args []value) value {
 	// Signature: func (reflect.Value) bool
-	_, ok := args[0].(structure)[0].(rtype)
-	return ok
+	rt, ok := args[0].(structure)[0].(rtype)
+	return ok && rt.t != nil
 }
 
 func ext۰reflect۰Value۰Set(fr *frame, args []value) value {
@@ -598,6 +962,12 @@ func ext۰reflect۰Value۰Set(fr *frame, args []value) value {
 func ext۰reflect۰valueInterface(fr *frame, args []value) value {
 	// Signature: func (v reflect.Value, safe bool) interface{}
 	v := args[0].(structure)
+	if _, isIface := rV2T(v).t.Underlying().(*types.Interface); isIface {
+		// a Value of interface kind holds an interface value: hand it out as is
+		if inner, ok := rV2V(v).(iface); ok {
+			return inner
+		}
+	}
 	return iface{rV2T(v).t, rV2V(v)}
 }
 
@@ -664,20 +1034,50 @@ func initReflect(i *interpreter) {
 	}
 
 	i.rtypeMethods = methodSet{
-		"Bits":      newMethod(i.reflectPackage, rtypeType, "Bits"),
-		"Elem":      newMethod(i.reflectPackage, rtypeType, "Elem"),
-		"Field":     newMethod(i.reflectPackage, rtypeType, "Field"),
-		"In":        newMethod(i.reflectPackage, rtypeType, "In"),
-		"Kind":      newMethod(i.reflectPackage, rtypeType, "Kind"),
-		"NumField":  newMethod(i.reflectPackage, rtypeType, "NumField"),
-		"NumIn":     newMethod(i.reflectPackage, rtypeType, "NumIn"),
-		"NumMethod": newMethod(i.reflectPackage, rtypeType, "NumMethod"),
-		"NumOut":    newMethod(i.reflectPackage, rtypeType, "NumOut"),
-		"Out":       newMethod(i.reflectPackage, rtypeType, "Out"),
-		"Size":      newMethod(i.reflectPackage, rtypeType, "Size"),
-		"String":    newMethod(i.reflectPackage, rtypeType, "String"),
+		"Bits":          newMethod(i.reflectPackage, rtypeType, "Bits"),
+		"Elem":          newMethod(i.reflectPackage, rtypeType, "Elem"),
+		"Field":         newMethod(i.reflectPackage, rtypeType, "Field"),
+		"In":            newMethod(i.reflectPackage, rtypeType, "In"),
+		"Kind":          newMethod(i.reflectPackage, rtypeType, "Kind"),
+		"NumField":      newMethod(i.reflectPackage, rtypeType, "NumField"),
+		"NumIn":         newMethod(i.reflectPackage, rtypeType, "NumIn"),
+		"NumMethod":     newMethod(i.reflectPackage, rtypeType, "NumMethod"),
+		"NumOut":        newMethod(i.reflectPackage, rtypeType, "NumOut"),
+		"Out":           newMethod(i.reflectPackage, rtypeType, "Out"),
+		"Size":          newMethod(i.reflectPackage, rtypeType, "Size"),
+		"Key":           newMethod(i.reflectPackage, rtypeType, "Key"),
+		"Len":           newMethod(i.reflectPackage, rtypeType, "Len"),
+		"Name":          newMethod(i.reflectPackage, rtypeType, "Name"),
+		"PkgPath":       newMethod(i.reflectPackage, rtypeType, "PkgPath"),
+		"Comparable":    newMethod(i.reflectPackage, rtypeType, "Comparable"),
+		"AssignableTo":  newMethod(i.reflectPackage, rtypeType, "AssignableTo"),
+		"ConvertibleTo": newMethod(i.reflectPackage, rtypeType, "ConvertibleTo"),
+		"Implements":    newMethod(i.reflectPackage, rtypeType, "Implements"),
+		"String":        newMethod(i.reflectPackage, rtypeType, "String"),
 	}
 	i.errorMethods = methodSet{
 		"Error": newMethod(i.reflectPackage, errorType, "Error"),
 	}
+}
+
+// copyVal copies value-typed aggregates (structs, arrays) so that the stored
+// element does not alias the source cell.
+func copyVal(v value) value {
+	switch v := v.(type) {
+	case structure:
+		c := make(structure, len(v))
+		for k := range v {
+			c[k] = copyVal(v[k])
+		}
+		return c
+	case array:
+		c := make(array, len(v))
+		for k := range v {
+			c[k] = copyVal(v[k])
+		}
+		return c
+	case iface:
+		return iface{t: v.t, v: copyVal(v.v)}
+	}
+	return v
 }
